@@ -293,6 +293,39 @@ pub fn judge(scn: &Scenario, rr: &RunResult, out: &mut Vec<Viol>) {
                     }
                 }
             }
+            Obs::DropCheck { t, dropped, live_handles, cur_gen, op } => {
+                for k in dropped {
+                    if live_handles.get(k.gen as usize).copied().unwrap_or(0) > 0 {
+                        v(out, "C11", "e2/dropped_while_injector_alive", format!("t={t} after {op}: item {k:?} was destroyed although an injector of its stream is still alive"));
+                    }
+                    if *cur_gen == Some(k.gen) {
+                        v(out, "C11", "e2/dropped_while_current_stream", format!("t={t} after {op}: item {k:?} of the matcher's current stream was destroyed while the matcher is alive"));
+                    }
+                }
+            }
+            Obs::Final { dropped } => {
+                let mut expected: Vec<crate::e2::ItemData> = scn.preload.iter().map(|i| crate::e2::ItemData { gen: 0, id: i.id }).collect();
+                for o2 in obs.iter() {
+                    if let Obs::PushReturn { gen, ids, .. } = o2 {
+                        for id in ids {
+                            expected.push(crate::e2::ItemData { gen: *gen, id: *id });
+                        }
+                    }
+                }
+                for k in &expected {
+                    let n = dropped.iter().filter(|d| *d == k).count();
+                    if n == 0 {
+                        v(out, "C11", "e2/leak", format!("item {k:?} was never destroyed although the matcher, its snapshot and every injector are gone"));
+                    } else if n > 1 {
+                        v(out, "C11", "e2/double_drop", format!("item {k:?} was destroyed {n} times"));
+                    }
+                }
+                for k in dropped {
+                    if !expected.contains(k) {
+                        v(out, "C11", "e2/unknown_item_dropped", format!("an item {k:?} that no completed push injected was destroyed"));
+                    }
+                }
+            }
             Obs::Panicked { t, thread, msg } => {
                 let short: String = msg.chars().take(60).collect();
                 v(out, "C06", &format!("library_call_panicked/{}", short.replace(|c: char| !c.is_ascii_alphanumeric(), "_")), format!("t={t}: a library call on thread {thread} panicked: {msg}"));
